@@ -564,7 +564,8 @@ PROPS['C06'] = dict(
         dict(name='worker-serial', bin='xworker', variant='plain', mode='serial',
              quick=30000, thorough=1500000,
              require=['c06.remote_entries_checked', 'c06.worker_deliveries_checked',
-                      'c06.frozen_sections_checked']),
+                      'c06.frozen_sections_checked', 'c06.worker_kind.wsink',
+                      'c06.worker_kind.wlin']),
         dict(name='worker-serial-asan', bin='xworker', variant='asan', mode='serial',
              quick=12000, thorough=400000),
         dict(name='worker-free-tsan', bin='xworker', variant='tsan', mode='free',
